@@ -176,9 +176,14 @@ func (ex *Exec) interfere(st *State, key string) {
 	}
 	fr := st.top()
 	cf := ex.eng.contractFor(fr.fn)
-	if cf == nil && fr.fn != ex.fn && fr.fn.Parent() != nil {
-		// an inlined function literal of the function under verification: its interference clauses apply
-		cf = ex.fc
+	if cf == nil {
+		// an inlined function literal or helper without a contract is part of the nearest function under
+		// contract on the stack: that function's interference clauses apply, evaluated in its frame
+		for i := len(st.frames) - 2; i >= 0 && cf == nil; i-- {
+			if c := ex.eng.contractFor(st.frames[i].fn); c != nil {
+				cf, fr = c, st.frames[i]
+			}
+		}
 	}
 	if cf == nil {
 		return
